@@ -25,6 +25,7 @@ theorem consts_gen :
     Gen.hsms_LinktestRspType = (stLinktestRsp : Int) ∧ Gen.hsms_RejectReqType = (stRejectReq : Int) ∧
     Gen.hsms_SeparateReqType = (stSeparateReq : Int) ∧ Gen.hsms_UndefinedMsgType = (stUndefined : Int) ∧
     Gen.hsms_MaxStreamCode = (maxStream : Int) ∧ Gen.secs2_MaxByteSize = (maxMsgLen : Int) ∧
+    Gen.hsms_maxHSMSMsgLen = (maxMsgLen : Int) ∧
     Gen.hsms_RejectSTypeNotSupported = (rejectSTypeNotSupported : Int) ∧
     Gen.hsms_RejectPTypeNotSupported = (rejectPTypeNotSupported : Int) ∧
     Gen.hsms_RejectTransactionNotOpen = (rejectTransactionNotOpen : Int) ∧
